@@ -2,10 +2,12 @@
    Statements only; proofs live in Proofs/C49*.v.
      G = Model/Gitignore.v   (go-git's gitignore package as it is)
      S = Spec/GitIgnore.v    (git 2.39.5 dir.c + wildmatch.c, validated against the binary)
-         Spec/Glob.v         (declarative glob semantics) *)
+         Spec/Glob.v         (declarative glob semantics of one path component)
+         Spec/PathGlob.v     (declarative semantics of patterns with slashes) *)
 From Coq Require Import List NArith Bool String.
-From GoGit Require Import Base.Out Model.Gitignore Spec.Glob Spec.GitIgnore
-     Proofs.C49Total Proofs.C49Wild Proofs.C49Scope Proofs.C49Git Proofs.C49Trim Proofs.C49Names.
+From GoGit Require Import Base.Out Model.Gitignore Spec.Glob Spec.PathGlob Spec.GitIgnore
+     Proofs.C49Total Proofs.C49Wild Proofs.C49Scope Proofs.C49Git Proofs.C49Trim Proofs.C49Names
+     Proofs.C49Path Proofs.C49Walk Proofs.C49GoGlob Proofs.C49Slash Proofs.C49Frag Proofs.C49Anc.
 Import ListNotations.
 Local Open Scope N_scope.
 Local Open Scope string_scope.
@@ -23,9 +25,12 @@ Print Assumptions C49_dowild_total.
 (* wildmatch as gitignore calls it (flags = 0) accepts exactly the texts the
    declarative glob denoted by the pattern matches: every pattern of the
    fragment  literal | \c | ? | * | ** | [set] | [!set] | [^set]  (glob_of p = Some g;
-   a set may hold bytes, escaped bytes, ranges, a leading closing bracket, literal
-   dashes — everything wildmatch accepts except POSIX classes [:name:]), every text.  The abort codes and the fast-forward after a star prune
-   nothing that could match. *)
+   a set may hold bytes, escaped bytes, ranges lo-hi / lo-\hi, a leading closing
+   bracket, literal dashes and the POSIX classes [:alnum:] ... [:xdigit:], which
+   denote unions of ASCII ranges — everything wildmatch accepts; only patterns
+   wildmatch itself calls malformed (unknown class, unterminated bracket or "[:",
+   trailing backslash, NUL) are outside), every text.  The abort codes and the
+   fast-forward after a star prune nothing that could match. *)
 Theorem C49_dowild_sound_complete : forall p g t,
   glob_of p = Some g -> (wildmatch p t = true <-> Gmatch g t).
 Proof. exact wildmatch_sound_complete. Qed.
@@ -51,6 +56,53 @@ Theorem C49_dowild_eq_git : forall p g t,
   glob_of p = Some g -> wildmatch p t = gwildmatch 0 p t.
 Proof. exact wildmatch_eq_git. Qed.
 Print Assumptions C49_dowild_eq_git.
+
+(* ---- patterns with slashes: git's wildmatch with WM_PATHNAME ---------- *)
+
+(* match_pathname's wildmatch(p, t, WM_PATHNAME) accepts exactly the joined
+   paths the path glob denoted by p matches (pglob_of p = Some g: segments
+   separated by slashes, each a glob as above without two adjacent stars and
+   without an escaped slash, or a whole segment "**" followed by a slash):
+   ? and [set] never match a slash, * stays inside a component, "**/" stands for
+   zero or more whole directories.  WM_ABORT_ALL, WM_ABORT_TO_STARSTAR, the "**/"
+   shortcut, the jump of "*/" to the next slash and the fast-forward to a
+   literal prune nothing that could match. *)
+Theorem C49_pathname_sound_complete : forall p g t,
+  pglob_of p = Some g -> (gwildmatch 2 p t = true <-> PMatch g t).
+Proof. exact gwildmatch_path_sound_complete. Qed.
+Print Assumptions C49_pathname_sound_complete.
+
+(* the return codes individually (bos: p starts a segment; prev: the pattern
+   byte before p): WM_ABORT_TO_STARSTAR = no suffix reached without crossing a
+   slash matches; WM_ABORT_ALL = no suffix matches (for a pattern that starts
+   with "**/": no suffix that starts a component) *)
+Theorem C49_pathname_codes : forall fuel fuel' p t prev bos g,
+  (List.length p < fuel)%nat -> pparse fuel' bos p = Some g ->
+  (bos = true -> prev = None \/ prev = Some 47) ->
+  match gdowild fuel 2 prev p t with
+  | WMatch => PMatch g t
+  | WNoMatch => ~ PMatch g t
+  | WAbortStarStar => forall t', csuffix t' t -> ~ PMatch g t'
+  | WAbortAll => if bos then forall t', bsuffix t' t -> ~ PMatch g t'
+                 else forall t', suffix t' t -> ~ PMatch g t'
+  | WFuel => False
+  end.
+Proof. exact gdowild_R2. Qed.
+Print Assumptions C49_pathname_codes.
+
+(* go-git's globMatch on the segment shapes of the fragment (plain segments,
+   then groups of one or more "**" followed by exactly one plain segment):
+   it accepts a path exactly when the segments match, component by component, a
+   non-empty leading part of it (and, for a directory-only pattern that uses the
+   whole path, the path is a directory) *)
+Theorem C49_globmatch_prefix : forall dironly isdir F segs path,
+  shape GR F = true -> F <> [] -> Forall2 seg_den segs F ->
+  (glob_loop segs dironly isdir path false false = true <-> GG dironly isdir F path).
+Proof.
+  intros dironly isdir F segs path Hs Hne HF.
+  exact (proj2 (proj2 (glob_loop_spec dironly isdir F)) Hs Hne segs path false HF).
+Qed.
+Print Assumptions C49_globmatch_prefix.
 
 (* ---- matcher and scope -------------------------------------------- *)
 
@@ -126,12 +178,23 @@ Example C49_refuted_doublestar_greedy :            (* **/a/b vs a/c/a/b *)
   (ignored None [([], B "**/a/b")] [B "a"; B "c"; B "a"; B "b"] false,
    git_ignored None [([], B "**/a/b")] [B "a"; B "c"; B "a"; B "b"] false) = (false, true).
 Proof. vm_compute. reflexivity. Qed.
+Example C49_refuted_dir_pattern_below_reincluded_dir :   (* foo/x/ then !*/**/ vs file foo/x/a *)
+  (ignored None [([], B "foo/x/
+!*/**/")] [B "foo"; B "x"; B "a"] false,
+   git_ignored None [([], B "foo/x/
+!*/**/")] [B "foo"; B "x"; B "a"] false) = (true, false).
+Proof. vm_compute. reflexivity. Qed.
 Example C49_refuted_whitespace_only_line :         (* a line holding TAB vs a file named TAB *)
   (ignored None [([], [9; 10])] [[9]] false, git_ignored None [([], [9; 10])] [[9]] false) = (false, true).
 Proof. vm_compute. reflexivity. Qed.
-(* two divergences were repaired in go-git (fix: commits, findings/C49.json):
-   trailing spaces are now trimmed by a port of git's trim_trailing_spaces, and a
-   UTF-8 byte order mark at the start of an ignore file is skipped *)
+(* three divergences were repaired in go-git (fix: commits, findings/C49.json):
+   trailing spaces are now trimmed by a port of git's trim_trailing_spaces, a
+   UTF-8 byte order mark at the start of an ignore file is skipped, and
+   [:space:] is git's isspace (no vertical tab, no form feed) *)
+Example C49_fixed_space_class :                    (* x[[:space:]] vs "x" VT *)
+  (ignored None [([], B "x[[:space:]]")] [[120; 11]] false, git_ignored None [([], B "x[[:space:]]")] [[120; 11]] false) = (false, false) /\
+  (ignored None [([], B "x[[:space:]]")] [[120; 9]] false, git_ignored None [([], B "x[[:space:]]")] [[120; 9]] false) = (true, true).
+Proof. vm_compute. split; reflexivity. Qed.
 Example C49_fixed_trailing_space_escape :          (* a\<sp><sp> vs "a " ; a\\<sp> vs "a\" *)
   (ignored None [([], B "a\  ")] [B "a "] false, git_ignored None [([], B "a\  ")] [B "a "] false) = (true, true) /\
   (ignored None [([], B "a\\ ")] [B "a\"] false, git_ignored None [([], B "a\\ ")] [B "a\"] false) = (true, true).
@@ -141,20 +204,79 @@ Example C49_fixed_utf8_bom :                       (* BOM a vs a *)
    git_ignored None [([], [239; 187; 191; 97; 10])] [B "a"] false) = (true, true).
 Proof. vm_compute. reflexivity. Qed.
 
-(* Partial statement: ignore files made of plain name patterns — no negation,
-   no slash except an optional trailing one, glob inside the fragment, nothing
-   for the two line readers to disagree on (names_file) — give the same verdict
-   in go-git and in git, for every path at every depth, with ignore files at
-   every level and info/exclude.
-   Missing for the full statement: negated patterns (go-git's matching of
-   ancestor components re-includes differently), patterns with inner slashes
-   and the ** forms, the line-reading corner cases; the witnesses above show
-   each of them really differs. *)
-Theorem C49_pattern_eq_git_partial : forall excl fs path isdir,
+(* Partial statement 1 (kept from the first round): ignore files made of plain
+   name patterns — no negation, no slash except an optional trailing one, glob
+   inside the fragment, nothing for the two line readers to disagree on
+   (names_file) — give the same verdict in go-git and in git, for EVERY path
+   (no condition on the components), with ignore files at every level and
+   info/exclude. *)
+Theorem C49_names_eq_git_partial : forall excl fs path isdir,
   names_case excl fs = true ->
   ignored excl fs path isdir = git_ignored excl fs path isdir.
 Proof. exact names_eq_git. Qed.
+Print Assumptions C49_names_eq_git_partial.
+
+(* Partial statement 2 (the widening).  Boolean guards:
+     wide_case excl fs : every line of every ignore file (and of info/exclude) is
+       empty, a comment, or  ["!"] body ["/"]  where body is not empty, does not
+       begin with "!", and is either a slash-free glob of Spec/Glob (a name
+       pattern, POSIX classes included) or a pattern with a leading / inner
+       slash (slash_body: every segment a non-empty glob of Spec/Glob or "**";
+       no "**" inside a segment, at the end, or not followed by "/"; no escaped
+       slash; plain segments first, then groups of "**"s each followed by exactly
+       one plain segment: /a/b, a/*.c, **/x, a/**/b, /**/a/**/b ...); pattern lines hold
+       no blank (nothing to trim; comments may), no CR, no byte order mark (nothing
+       for the two line readers to disagree on);
+     path_ok path : components non-empty, without slash or NUL;
+     no_reincluded_ancestor excl fs path : go-git's own decision (last match wins)
+       on every proper ancestor directory of the path, from the top down to the
+       first excluded one, is never "re-included by a negated pattern".
+   Then go-git and git check-ignore agree on the path: negation is last-match-
+   wins on both sides, nothing below an excluded directory is re-included on
+   either side (C49_excluded_parent), anchored patterns, inner slashes and the
+   "**/" forms mean the same.
+   The third guard is needed (C49_reincluded_ancestor_refuted below, the known
+   finding negated-ancestor): a negated pattern that matches a directory
+   re-includes everything below it in go-git only.  What stays outside: the other
+   eight finding classes (each excluded by wide_case), a trailing "/**", a "**"
+   followed by two or more plain segments. *)
+Theorem C49_pattern_eq_git_partial : forall excl fs path isdir,
+  wide_case excl fs = true -> path_ok path = true ->
+  no_reincluded_ancestor excl fs path = true ->
+  ignored excl fs path isdir = git_ignored excl fs path isdir.
+Proof. exact wide_eq_git. Qed.
 Print Assumptions C49_pattern_eq_git_partial.
+
+(* without negation the third guard is void: every path *)
+Theorem C49_pattern_eq_git_positive : forall excl fs path isdir,
+  wide_case excl fs = true -> positive_case excl fs = true -> path_ok path = true ->
+  ignored excl fs path isdir = git_ignored excl fs path isdir.
+Proof. exact positive_eq_git. Qed.
+Print Assumptions C49_pattern_eq_git_positive.
+
+(* inside the fragment go-git's verdict is EXACTLY git's algorithm with every
+   pattern also matching everything below what it matches (gpat_match_anc in
+   the place of gpat_match in last_matching_pattern / prep_exclude), for every
+   path and without the third guard: the ancestor matching of pattern.Match is
+   the only source of divergence there *)
+Theorem C49_pattern_eq_git_modulo_ancestor : forall excl fs path isdir,
+  wide_case excl fs = true -> path_ok path = true ->
+  ignored excl fs path isdir = git_anc_ignored excl fs path isdir.
+Proof. exact anc_eq_git. Qed.
+Print Assumptions C49_pattern_eq_git_modulo_ancestor.
+
+(* the third guard cannot be dropped: inside the fragment, with a re-included
+   ancestor, the two differ (pattern "*" then "!foo", path foo/x) *)
+Theorem C49_reincluded_ancestor_refuted :
+  let fs := [([], bytes_of_string "*
+!foo
+")] in
+  let path := [bytes_of_string "foo"; bytes_of_string "x"] in
+  wide_case None fs = true /\ path_ok path = true /\
+  no_reincluded_ancestor None fs path = false /\
+  ignored None fs path false = false /\ git_ignored None fs path false = true.
+Proof. vm_compute. repeat split; reflexivity. Qed.
+Print Assumptions C49_reincluded_ancestor_refuted.
 
 (* ---- non-vacuity --------------------------------------------------- *)
 
@@ -170,8 +292,59 @@ Example C49_fragment_sets :
   wildmatch (bytes_of_string "[]-]x[\]a-\c-][[a]") (bytes_of_string "]xb[") = true /\
   wildmatch (bytes_of_string "[]-]x[\]a-\c-][[a]") (bytes_of_string "-x-a") = true /\
   wildmatch (bytes_of_string "[]-]x[\]a-\c-][[a]") (bytes_of_string "axb[") = false /\
-  glob_of (bytes_of_string "[[:alpha:]]") = None.
+  glob_of (bytes_of_string "[[:foo:]]") = None /\ glob_of (bytes_of_string "[[:alpha:]") = None.
 Proof. vm_compute. repeat split; try reflexivity. eexists; reflexivity. Qed.
+
+Example C49_fragment_classes :
+  glob_of (bytes_of_string "[[:alpha:]_][[:alnum:]_]*.[![:digit:][:space:]x-z]") =
+    Some [ISet false [(65, 90); (97, 122); (95, 95)];
+          ISet false [(48, 57); (65, 90); (97, 122); (95, 95)]; IStar; ILit 46;
+          ISet true [(48, 57); (32, 32); (9, 10); (13, 13); (120, 120); (120, 122)]] /\
+  wildmatch (bytes_of_string "[[:alpha:]_][[:alnum:]_]*.[![:digit:][:space:]x-z]") (bytes_of_string "_a1.c") = true /\
+  wildmatch (bytes_of_string "[[:alpha:]_][[:alnum:]_]*.[![:digit:][:space:]x-z]") (bytes_of_string "_a1.7") = false /\
+  glob_of (bytes_of_string "[[:]") = Some [ISet false [(91, 91); (58, 58)]] /\
+  glob_of (bytes_of_string "[[:alpha:]-z]") = Some [ISet false [(65, 90); (97, 122); (45, 45); (122, 122)]].
+Proof. vm_compute. repeat split; reflexivity. Qed.
+
+Example C49_pathglob_example :
+  pglob_of (bytes_of_string "src/**/*.c") =
+    Some [PIt (ILit 115); PIt (ILit 114); PIt (ILit 99); PSep; PDirs; PIt IStar; PIt (ILit 46); PIt (ILit 99)] /\
+  gwildmatch 2 (bytes_of_string "src/**/*.c") (bytes_of_string "src/a/b/x.c") = true /\
+  gwildmatch 2 (bytes_of_string "src/**/*.c") (bytes_of_string "src/x.c") = true /\
+  gwildmatch 2 (bytes_of_string "src/**/*.c") (bytes_of_string "src/a/x.h") = false /\
+  gwildmatch 2 (bytes_of_string "src/*.c") (bytes_of_string "src/a/x.c") = false.
+Proof. vm_compute. repeat split; reflexivity. Qed.
+
+(* a realistic set of ignore files inside the widened fragment: negation,
+   anchored and inner-slash patterns, "**/" forms, POSIX classes, a nested file *)
+Example C49_wide_example :
+  let root := bytes_of_string "# build products
+*.o
+!keep.o
+/build/
+src/**/*.tmp
+**/gen
+doc/*.pdf
+[[:upper:]]*.bak
+" in
+  let sub := bytes_of_string "!main.o
+/sub/x?
+" in
+  let fs := [([], root); ([bytes_of_string "src"], sub)] in
+  let B := bytes_of_string in
+  wide_case None fs = true /\
+  map (fun q => (no_reincluded_ancestor None fs (fst q), ignored None fs (fst q) (snd q), git_ignored None fs (fst q) (snd q)))
+      [([B "a.o"], false); ([B "keep.o"], false); ([B "build"], true); ([B "build"], false);
+       ([B "x"; B "build"], true); ([B "src"; B "a"; B "b"; B "t.tmp"], false); ([B "src"; B "t.tmp"], false);
+       ([B "x"; B "gen"; B "y"], false); ([B "doc"; B "m.pdf"], false); ([B "doc"; B "d"; B "m.pdf"], false);
+       ([B "Old.bak"], false); ([B "old.bak"], false); ([B "src"; B "main.o"], false); ([B "src"; B "sub"; B "x1"], false);
+       ([B "src"; B "sub"; B "x12"], false)] =
+  [(true, true, true); (true, false, false); (true, true, true); (true, false, false);
+   (true, false, false); (true, true, true); (true, true, true);
+   (true, true, true); (true, true, true); (true, false, false);
+   (true, true, true); (true, false, false); (true, false, false); (true, true, true);
+   (true, false, false)].
+Proof. vm_compute. split; reflexivity. Qed.
 
 Example C49_names_example :
   names_case (Some (bytes_of_string "*.o
